@@ -166,7 +166,7 @@ def load_known_findings():
         if not ln.startswith("finding:"):
             continue
         body = ln[len("finding:"):].strip()
-        key, _, what = body.partition("::")
+        key, _, what = body.partition(" :: ")
         out[key.strip()] = what.strip()
     return out
 
